@@ -9,6 +9,7 @@ verus! {
 //@@ INCLUDE lib/sign.rs
 //@@ INCLUDE lib/mul_lemmas.rs
 //@@ INCLUDE lib/mulalg_stubs.rs
+//@@ INCLUDE lib/mulalg_core_lemmas.rs
 //@@ INCLUDE lib/mulalg_lemmas.rs
 //@@ INCLUDE lib/mulalg_toom_lemmas.rs
 pub mod add {
